@@ -22,6 +22,7 @@ def variants(c):
         ("correct, upper-case, default algorithm", h("sha1").upper(), "SHA-1", n, True),
         ("wrong checksum", wrong("sha256"), "SHA-256", n, False),
         ("wrong checksum, non-default algorithm", wrong("blake2b"), "blake2b", n, False),
+        ("wrong checksum: the SHA-1 digest of the content labelled MD5", h("sha1"), "MD5", n, False),
         ("wrong size", h("sha256"), "SHA-256", n + 1, False),
         ("wrong size and checksum", wrong("sha256"), "SHA-256", n + 1, False),
         # the one-call form may also be given an additional algorithm: the same text as the checksum algorithm, the
